@@ -104,7 +104,7 @@ class PubSub(object):
         self.plain = set()
         self.event = threading.Event()
         self.closed = False
-        SERVER.subscribers[client.id] = self
+        client.server.subscribers[client.id] = self
 
     def subscribe(self, *channels, **handlers):
         for ch, h in handlers.items():
@@ -135,7 +135,10 @@ class PubSub(object):
 class Redis(object):
     def __init__(self, connection_pool=None, **kw):
         self.connection_pool = connection_pool or ConnectionPool()
-        self.id = SERVER.new_client()
+        # a client belongs to the server that existed when it connected: whatever a long-dead client does later (its
+        # store's destructor runs whenever the garbage collector gets to it) must not reach the server of another run
+        self.server = SERVER
+        self.id = self.server.new_client()
         self.closed = False
 
     @classmethod
@@ -148,7 +151,7 @@ class Redis(object):
         return True
 
     def info(self, section=None):
-        return {"redis_version": SERVER.version}
+        return {"redis_version": self.server.version}
 
     def client_id(self):
         return self.id
@@ -156,39 +159,39 @@ class Redis(object):
     def execute_command(self, *args):
         a = [str(x).upper() if isinstance(x, str) else x for x in args]
         if a[:3] == ["CLIENT", "TRACKING", "ON"]:
-            SERVER.tracking[self.id] = int(args[4]) if len(args) > 4 else self.id
+            self.server.tracking[self.id] = int(args[4]) if len(args) > 4 else self.id
             return b"OK"
         if a[:3] == ["CLIENT", "TRACKING", "OFF"]:
-            SERVER.tracking.pop(self.id, None)
-            SERVER.read_keys.pop(self.id, None)
+            self.server.tracking.pop(self.id, None)
+            self.server.read_keys.pop(self.id, None)
             return b"OK"
         raise NotImplementedError(args)
 
     def delete(self, *keys):
         n = 0
         for k in keys:
-            n += 1 if SERVER.delete(k) else 0
+            n += 1 if self.server.delete(k) else 0
         return n
 
     def exists(self, *keys):
-        return sum(1 for k in keys if k in SERVER.data)
+        return sum(1 for k in keys if k in self.server.data)
 
     def expire(self, key, seconds):
-        if key in SERVER.data:
-            SERVER.ttl[key] = int(seconds)
+        if key in self.server.data:
+            self.server.ttl[key] = int(seconds)
             return True
         return False
 
     def ttl(self, key):
-        if key not in SERVER.data:
+        if key not in self.server.data:
             return -2
-        return SERVER.ttl.get(key, -1)
+        return self.server.ttl.get(key, -1)
 
     def scan(self, cursor=0, match=None, count=None):
         cursor = int(cursor)
-        keys = sorted(k for k in SERVER.data if match is None or fnmatch.fnmatchcase(k, match))
-        page = keys[cursor:cursor + SERVER.scan_page]
-        nxt = cursor + SERVER.scan_page
+        keys = sorted(k for k in self.server.data if match is None or fnmatch.fnmatchcase(k, match))
+        page = keys[cursor:cursor + self.server.scan_page]
+        nxt = cursor + self.server.scan_page
         if nxt >= len(keys):
             nxt = 0
         return nxt, [k.encode("utf8") for k in page]
@@ -198,7 +201,7 @@ class Redis(object):
 
     def publish(self, channel, message):
         n = 0
-        for ps in list(SERVER.subscribers.values()):
+        for ps in list(self.server.subscribers.values()):
             if channel in ps.handlers or channel in ps.plain:
                 ps.dispatch(channel, message.encode() if isinstance(message, str) else message)
                 n += 1
